@@ -31,7 +31,7 @@ case "$cmd" in
     shift 0
     exec bin/vcheck "$@"
     ;;
-  replay|case)
+  replay|case|probe)
     build ""
     exec bin/vcheck "$@"
     ;;
